@@ -179,8 +179,34 @@ def run(ctx):
         script = gen_script(rng, len(data))
         lines.append(f"run {hex_or_dash(data)} {script} {ALLOC_LIMIT}")
         meta.append((label, data, script))
-    outs = run_lines_robust([ctx.harness_bin("c01")], lines, per_line_timeout=30, batch=100)
-    for (label, data, script), o in zip(meta, outs):
+    # low allocation limits with repeated calls: an error (out of memory in decoding, blending, ...)
+    # must leave the image usable - a later call answers, it does not hang or panic
+    limits = [ALLOC_LIMIT] * len(lines)
+    fixture = open(REPO + "/crates/jxl-oxide-tests/tests/cms/cmyk_layers.jxl", "rb").read()
+    import feedlib as fl
+    multi = [cs for (_, _, cs) in fl.encode([("m", pl.plan_line(*fl.gen_multiframe(rng))) for _ in range(10 if q else 80)])] if ok else []
+    for _ in range(40 if q else 600):
+        if rng.random() < 0.5 or not multi:
+            data, lim = fixture, int(2 ** rng.uniform(16, 24))
+        else:
+            data, lim = rng.choice(multi), int(2 ** rng.uniform(6, 17))
+        script = rng.choice(["W,RA,RA,R0,M,R0", "W,R0,R0,R0", "F0,RA,L,RA,R0", "W,RA,P0:0:3:3,RA,RA", "F4096,F0,RA,RA,Z,R0"])
+        lines.append(f"run {hex_or_dash(data)} {script} {lim}")
+        meta.append(("low-limit", data, script))
+        limits.append(lim)
+    n_main = next((i for i, m in enumerate(meta) if m[0] == "low-limit"), len(meta))
+    outs = run_lines_robust([ctx.harness_bin("c01")], lines[:n_main], per_line_timeout=30, batch=100)
+    # the low-limit lines one process each (a hang costs its deadline once); give up after 3 failures
+    bad_low = 0
+    for ln in lines[n_main:]:
+        if bad_low >= 3:
+            outs.append("skip")
+            continue
+        o1 = run_lines_robust([ctx.harness_bin("c01")], [ln], per_line_timeout=25, floor=25)[0] or "crash"
+        outs.append(o1)
+        if o1 == "hang" or o1.startswith("crash") or "panic" in o1:
+            bad_low += 1
+    for (label, data, script), o, lim_used in zip(meta, outs, limits):
         o = o or "crash"
         words = o.split()
         inited = any(w == "ok" for w in words[:1 + script.count("F")])
@@ -196,7 +222,7 @@ def run(ctx):
             m = re.match(r"panic_([^_]+\.rs:\d+)", site)
             key = "panic:" + m.group(1) if m else site.split("_")[0]
             ctx.violation("public-call-panicked-or-hung", {"input": label, "result": o[:400]},
-                          {"bytes_hex": data.hex(), "script": script, "alloc_limit": ALLOC_LIMIT,
+                          {"bytes_hex": data.hex(), "script": script, "alloc_limit": lim_used,
                            "how": "echo 'run <hex> <script> <limit>' | harness/target/debug/c01"}, key=key)
         elif len(ctx.cov["samples"]) < 4 and inited and len(data) < 200:
             ctx.sample({"input": label, "bytes_hex": data.hex(), "script": script, "results": o})
